@@ -25,8 +25,9 @@ namespace NemoVerif.SlideGraph
 
 /-- sliding-relevant classification of one primitive element (see `harness/translate/c10.py::classify`). -/
 inductive Elem where
-  /-- `SpecOp` match / `send` of a non-internal (action) event / other op: `break` -/
-  | wait
+  /-- `SpecOp` match / `send` of a non-internal (action) event / other op: `break`;
+      `evals` = the event is built first (`get_event_from_element` evaluates the arguments of an action `send`), which can raise -/
+  | wait (evals : Bool)
   /-- `position += 1`; `evals` = the element evaluates something that can raise (internal `send`,
       `_new_action_instance`, `Assignment`, `Log`, `Print`, `Priority`, `BeginScope`, `EndScope`);
       `Label`, `Global`, unknown elements never raise -/
@@ -93,7 +94,7 @@ def stepAt (p : Prog) (a : Ans) (h : Head) : Step :=
   | none => .stop .atEnd
   | some e =>
     match e with
-    | .wait => .stop .waiting
+    | .wait evals => if evals && a == .err then .stop .error else .stop .waiting
     | .step evals =>
       if evals && a == .err then .stop .error else .next { h with pos := h.pos + 1 }
     | .restartLabel => .next { h with pos := h.pos + 1 }
@@ -152,7 +153,7 @@ def succs (p : Prog) (u : Nat) : List Nat :=
   | none => []
   | some e =>
     match e with
-    | .wait => []
+    | .wait _ => []
     | .step _ => [u + 1]
     | .restartLabel => [u + 1]
     | .goto (some t) => [t + 1, u + 1]
